@@ -10,4 +10,7 @@ OBLS = [
     Obl('C16.1', 'C16/alloc.cc', 'obl_c16_alloc_step', 'A',
         'StackAllocator<Secondary>::operator()/size/get/clear from an arbitrary valid state: success iff it fits, block = [old, old+count), '
         'failure leaves size and storage untouched, earlier elements never overlapped', unwind=6, timeout=300),
+    Obl('C16.3', 'C05/step.cc', 'obl_c01_interaction', 'B', 'InteractionApplier with a FAILED interaction (secondary stack exhausted): energy, direction, status, '
+        'deposition and secondaries unchanged; step limited to zero with the failure action so that the track interacts again', mode='bv',
+        defines=('VERIF_NSEC=1',), timeout=300),
 ]
